@@ -414,8 +414,9 @@ type x07BEv struct {
 }
 
 type x07BHist struct {
-	B       []x07BEv `json:"b"`
-	Corrupt bool     `json:"corrupt,omitempty"`
+	B         []x07BEv `json:"b"`
+	Corrupt   bool     `json:"corrupt,omitempty"`
+	NonStrict bool     `json:"nonstrict,omitempty"` // the listener has strictmatch=false
 }
 
 type x07BStats struct {
@@ -482,7 +483,7 @@ func x07PlayPKI(h x07BHist, hi int, st *x07BStats) string {
 			hasRound = true
 		}
 	}
-	r, err := x07NewPKI(true)
+	r, err := x07NewPKI(!h.NonStrict)
 	if err != nil {
 		x07InfraErr("pki: TLSConfig: %v", err)
 		return "infra"
@@ -500,7 +501,7 @@ func x07PlayPKI(h x07BHist, hi int, st *x07BStats) string {
 		}
 	}
 	report := func(pos int, clause, format string, a ...any) {
-		verifx.Fail(map[string]any{"history": h.B[:pos+1]}, map[string]any{"sub": "pki", "clause": clause, "op": h.B[pos].Op},
+		verifx.Fail(map[string]any{"history": h.B[:pos+1], "nonstrict": h.NonStrict}, map[string]any{"sub": "pki", "clause": clause, "op": h.B[pos].Op, "nonstrict": h.NonStrict},
 			"pki event %d (%s %s): %s", pos+1, h.B[pos].Op, h.B[pos].Name, fmt.Sprintf(format, a...))
 	}
 	hsIssues := 0 // issue requests that handshakes caused
@@ -598,6 +599,10 @@ func x07PlayPKI(h x07BHist, hi int, st *x07BStats) string {
 				}
 			}
 			switch {
+			case len(end.IDs) > 0: // strictmatch=false, no certificate for the name: any certificate of the store
+				if leaf == nil || !x07Has(r.mapIDs(end.IDs), int(leaf.SerialNumber.Int64())) {
+					report(pos, "fallback", "strictmatch=false and no certificate for %s: presented %v, specified: one of the serials %v in the store, no issue request", e.Name, leaf != nil, r.mapIDs(end.IDs))
+				}
 			case wantID == 0 && leaf != nil:
 				report(pos, "handshake-result", "the handshake was presented serial %s, specified: it fails (the issue request failed)", leaf.SerialNumber)
 			case wantID > 0 && leaf == nil:
@@ -828,6 +833,7 @@ func x07PlayToken(h x07CHist, hi int) (string, map[string]any) {
 		return strings.Join(s, " ")
 	}
 	mism := ""
+	timing := false // the disagreement can be the effect of a frozen process
 	for i, q := range want {
 		if h.Corrupt && i == 0 {
 			q.Req = "renew"
@@ -835,11 +841,13 @@ func x07PlayToken(h x07CHist, hi int) (string, map[string]any) {
 		if i >= len(got) {
 			mism = fmt.Sprintf("request %d (%s at %v) never arrived", i+1, q.Req, time.Duration(q.At)*x07Sec/2)
 			feat["clause"] = "request-missing"
+			timing = true
 			break
 		}
 		g := got[i]
 		if g.Kind != q.Req || (g.Ans == "ok") != q.OK {
 			mism = fmt.Sprintf("request %d is %s answered %s (late=%v), specified %s ok=%v", i+1, g.Kind, g.Ans, g.Late, q.Req, q.OK)
+			timing = g.Kind == q.Req && (g.Late || g.Ans == "403")
 			if g.Late {
 				feat["clause"] = "renewed-too-late"
 			}
@@ -862,7 +870,7 @@ func x07PlayToken(h x07CHist, hi int) (string, map[string]any) {
 	if mism == "" {
 		return "ok", nil
 	}
-	if stalled > x07Sec/4 && feat["clause"] != "too-early" && feat["clause"] != "request-extra" {
+	if stalled > x07Sec/4 && timing {
 		return "void", nil
 	}
 	feat["msg"] = fmt.Sprintf("token (ttl %d s, renewable %v; one Vault second = %v): %s; specified: %s; seen: %s", h.TTL, h.Renewable, x07Sec, mism, wantDesc(), desc(got))
